@@ -72,6 +72,7 @@ class Optimizer(Logger, Citable):
         self._model_callback = None
         self._sigma_fraction = sigma_fraction
         self._fit_priors = {}
+        self._user_priors = {}
         self.fitting_parameters = []
         self.fitting_priors = []
 
@@ -116,6 +117,9 @@ class Optimizer(Logger, Citable):
         self.fitting_parameters = []
         self.derived_parameters = []
         self.fitting_priors = []
+        # Only priors given through set_prior persist between compilations.
+        # Default priors are rebuilt from the current mode and boundaries
+        self._fit_priors = dict(self._user_priors)
         # param_name,param_latex,
         #                 fget.__get__(self),fset.__get__(self),
         #                         default_fit,default_bounds
@@ -490,6 +494,7 @@ class Optimizer(Logger, Citable):
             self.error('Fitting parameter %s does not exist', parameter)
             raise ValueError('Fitting parameter does not exist')
 
+        self._user_priors[parameter] = prior
         self._fit_priors[parameter] = prior
 
     def chisq_trans(self, fit_params, data, datastd):
